@@ -335,8 +335,6 @@ var c09KnownExt = map[string]bool{"datetime": true, "decimal": true, "duration":
 	"ip": true, "isInRange": true, "isIpv4": true, "isIpv6": true, "isLoopback": true, "isMulticast": true, "lessThan": true, "lessThanOrEqual": true, "offset": true,
 	"toDate": true, "toDays": true, "toHours": true, "toMilliseconds": true, "toMinutes": true, "toSeconds": true, "toTime": true}
 
-var c09MinusReceiver = regexp.MustCompile(`-\s*-|-\s*[0-9]+\s*[.\[]`)
-
 var c09Constructor = map[string]bool{"decimal": true, "ip": true, "datetime": true, "duration": true}
 
 var c09Ident = regexp.MustCompile(`^[A-Za-z_][A-Za-z0-9_]*$`)
@@ -359,8 +357,6 @@ type c09Traits struct {
 	unknownExt     bool   // call of a name that is not an extension function: outside the JSON format
 	emptyPattern   bool   // `like` with a zero-component pattern
 	literalClass   string // a literal VALUE that does not survive value JSON (C13 known findings)
-	negReceiver    bool   // C08: negative long literal as receiver of . / method call
-	hasMinus       bool   // the AST holds a unary minus or a negative long literal
 	methodNoRecv   bool   // C10: method-style extension call without a receiver (MarshalCedar panics)
 	exoticValueKey bool   // C08: record VALUE key that strconv.Quote renders with Go-only escapes
 	textFriendly   bool   // every entity type / annotation key is a Cedar identifier path, no zero UID
@@ -392,18 +388,6 @@ func c09ValueTraits(v types.Value, t *c09Traits) {
 			}
 		}
 	})
-}
-
-func c09IsNegLit(n ast.IsNode) bool {
-	if _, ok := n.(ast.NodeTypeNegate); ok { // `-x.f` re-parses as -(x.f): same root cause (receiver needs parentheses)
-		return true
-	}
-	v, ok := n.(ast.NodeValue)
-	if !ok {
-		return false
-	}
-	l, ok := v.Value.(types.Long)
-	return ok && l < 0
 }
 
 func c09TraitsOf(p *ast.Policy) c09Traits {
@@ -447,20 +431,12 @@ func c09TraitsOf(p *ast.Policy) c09Traits {
 			t.nodes++
 			t.kinds[fmt.Sprintf("%T", n)[4:]] = true
 			switch v := n.(type) {
-			case ast.NodeTypeNegate:
-				t.hasMinus = true
 			case ast.NodeValue:
 				c09ValueTraits(v.Value, &t)
 				t.kinds["lit:"+c13Kind(v.Value)] = true
-				if l, ok := v.Value.(types.Long); ok && l < 0 {
-					t.hasMinus = true
-				}
 			case ast.NodeTypeExtensionCall:
 				if !c09KnownExt[string(v.Name)] {
 					t.unknownExt = true
-				}
-				if len(v.Args) > 0 && c09IsNegLit(v.Args[0]) {
-					t.negReceiver = true
 				}
 				if len(v.Args) == 0 && c09KnownExt[string(v.Name)] && !c09Constructor[string(v.Name)] {
 					t.methodNoRecv = true
@@ -468,10 +444,6 @@ func c09TraitsOf(p *ast.Policy) c09Traits {
 			case ast.NodeTypeLike:
 				if len(types.VerifPatternComps(v.Value)) == 0 {
 					t.emptyPattern = true
-				}
-			case ast.NodeTypeAccess:
-				if c09IsNegLit(v.Arg) {
-					t.negReceiver = true
 				}
 			case ast.NodeTypeIs:
 				if !c09PathOK(string(v.EntityType)) {
@@ -488,14 +460,6 @@ func c09TraitsOf(p *ast.Policy) c09Traits {
 						t.textFriendly = false // the text parser rejects duplicate keys
 					}
 					seen[e.Key] = true
-				}
-			case ast.NodeTypeContains, ast.NodeTypeContainsAll, ast.NodeTypeContainsAny, ast.NodeTypeGetTag, ast.NodeTypeHasTag:
-				if l, _, ok := c09Binary(n); ok && c09IsNegLit(l) {
-					t.negReceiver = true
-				}
-			case ast.NodeTypeIsEmpty:
-				if c09IsNegLit(v.Arg) {
-					t.negReceiver = true
 				}
 			}
 		})
@@ -733,9 +697,10 @@ func runC09(c *vh.Ctx) {
 		default:
 			c.Res.OracleChecks++
 			pjt, perr := c09ParseText(txt)
-			// the two C08 shapes: `-N.member` / `-N[...]` / `--N` in the rendered text (minus directly before a
-			// literal receiver), and record VALUE keys rendered with Go-only escapes
-			c08 := tr.negReceiver || tr.exoticValueKey || (tr.hasMinus && c09MinusReceiver.Match(txt))
+			// the C08 shape that is still a known defect: record VALUE keys rendered with Go-only escapes.
+			// (`-N.member` / `-N[...]` / `--N` in the rendered text used to be stepped around here as well: the C08
+			// defects negative-literal-receiver and negated-int-receiver are repaired, those texts are checked now.)
+			c08 := tr.exoticValueKey
 			switch {
 			case c08:
 				c.Dist("text-paths:c08-overlap")
